@@ -666,6 +666,27 @@ def _execute(plan, w, tr):
             # one Tx object (parsed from honest bytes or built through the API), a sequence of edits, and after every edit:
             # id()/hash() equal the reference txid of the mirrored model, serialize() equals the reference serialisation
             ent = w.db[st["tx"] % len(w.db)]
+            if not ent["canonical"] and ent["tx"]["ins"]:
+                # scripts that are not minimally encoded cannot be mirrored edit by edit (the library keeps their bytes until they are
+                # edited); what must still hold: an in-place change of non-witness data through the public command lists changes the id
+                try:
+                    obj = Tx.parse(BytesIO(tm.ser_tx(ent["tx"])), network="mainnet")
+                    id0, ser0 = obj.id(), obj.serialize()
+                    for j_, ti_ in enumerate(obj.tx_ins):
+                        ti_.script_sig.commands.append(bytes([7 + j_]) * 5)
+                    for to_ in obj.tx_outs:
+                        to_.script_pubkey.commands.append(0x51)
+                    id1, ser1 = obj.id(), obj.serialize()
+                except SimDeadlock:
+                    raise
+                except Exception as e:
+                    tr.probe("noncanonical_history_raised")
+                    continue
+                tr.oracle("F3_noncanonical_history")
+                tr.fault("edit_in_place_noncanonical_scripts")
+                if id1 == id0 or ser1 == ser0:
+                    fail("F3", "txid_unchanged_by_in_place_script_edit", "appending to the command lists of every scriptSig and output script of a parsed transaction (whose scripts are not minimally encoded) leaves id() / serialize() unchanged")
+                continue
             if not ent["canonical"] or not ent["tx"]["ins"]:
                 continue
             model = tm.clone(ent["tx"])
@@ -930,6 +951,10 @@ def enumerate_plans(tier, prop, seed):
                                         {"op": "lazy", "tx": 0, "vout": 0, "what": "value"}], "enum": "bitrot"}
     for room in range(0, 400, 9 if tier == "quick" else 1):
         yield {"db": base_db, "steps": [{"op": "fetch", "tx": 0}, {"op": "fetch", "tx": 1}, {"op": "dump", "enospc": room}, {"op": "fetch", "tx": 0}, {"op": "restart"}, {"op": "load"}, {"op": "fetch", "tx": 1}], "enum": "enospc"}
+    # in-place edits of parsed transactions with non-minimally encoded scripts
+    for sd in range(4):
+        for k in range(4):
+            yield {"db": {"seed": 1331 + seed + sd, "n": 4, "noncanonical": True}, "steps": [{"op": "history", "tx": k, "via_api": False, "edits": []}], "enum": "noncanonical-history"}
     # API-built transactions without inputs
     for sd in range(6):
         yield {"db": {"seed": 551 + seed + sd, "n": 2, "zero_in": True}, "steps": [{"op": "broadcast", "tx": 2, "net": "mainnet"}], "enum": "zero-inputs"}
